@@ -4,7 +4,7 @@ import common
 from leanio import farr, bits, dec, unbits, ulp_diff
 
 LEVEL = "proof"
-LEMMA_MODULES = ["Tdma", "Fd", "Newton", "Trapz", "Consts"]
+LEMMA_MODULES = ["Tdma", "Fd", "Newton", "Trapz", "Consts", "MaxPrinciple", "Comparison"]
 RULE = ("the three public solvers vs Radial.bpStatic / bpEbeam (phi, nax, shape; 1e-9 relative to max|phi|; the e-beam variant also one update at a "
         "time via max_step=1) for 1..8 species, q in 0..40, kT/q above the stiffness limit, compensation 0..60 %, beams over the operating range, "
         "with/without first_guess and ldu, rel_diff 1e-3..1e-12; heat_capacity vs Radial.heatCapacity. non-trivial = at least one charged species "
